@@ -39,6 +39,116 @@ Proof.
   destruct src as [|[|src]]; cbn; try reflexivity. lia.
 Qed.
 
+(* ---- counters ------------------------------------------------------------------------------------ *)
+Lemma ids_of_app a b : ids_of (a ++ b) = ids_of a ++ ids_of b.
+Proof. unfold ids_of. apply flat_map_app. Qed.
+
+Lemma nodup_app_l {A} (l1 l2 : list A) : NoDup (l1 ++ l2) -> NoDup l1.
+Proof.
+  induction l1 as [|a t IH]; cbn; intros H; [constructor|].
+  inversion H as [|? ? Hn Ht]; subst. constructor; [|apply IH; exact Ht].
+  intros X. apply Hn. apply in_or_app. left. exact X.
+Qed.
+Lemma nodup_app_disj {A} (l1 l2 : list A) x : NoDup (l1 ++ l2) -> In x l1 -> ~ In x l2.
+Proof.
+  induction l1 as [|a t IH]; cbn; intros H Hi; [contradiction|].
+  inversion H as [|? ? Hn Ht]; subst. destruct Hi as [<-|Hi].
+  - intros X. apply Hn. apply in_or_app. right. exact X.
+  - apply IH; assumption.
+Qed.
+
+Lemma mocc_pos_in m r : (0 < mocc m r)%Z -> In r (map mid (filter mref m)).
+Proof.
+  induction m as [|i t IH]; cbn [mocc filter map]; [lia|].
+  destruct (mref i) eqn:Ei; cbn [andb map].
+  - destruct (Nat.eqb_spec (mid i) r) as [E|E]; [intros _; left; exact E|]. intros H. right. apply IH. lia.
+  - intros H. apply IH. lia.
+Qed.
+
+(* E: side condition under which callbacks are claimed not to be early; ids: counter ids seen so far;
+   h: number of references currently held for each id *)
+Definition RcOK (E : Prop) (ids : list nat) (rc : rcs) (h : nat -> Z) : Prop :=
+  (forall r, rcnt rc r = h r) /\
+  (E -> forall r, In r (rfired rc) -> h r = 0%Z) /\
+  (forall r, In r (rfired rc) \/ (0 < h r)%Z -> In r ids).
+
+Lemma rcok_ext E ids rc h h' : (forall r, h' r = h r) -> RcOK E ids rc h -> RcOK E ids rc h'.
+Proof.
+  intros X (A & B & C). split; [|split].
+  - intros r. rewrite X. apply A.
+  - intros e r Hr. rewrite X. apply B; assumption.
+  - intros r Hr. apply C. rewrite <- X. exact Hr.
+Qed.
+
+Lemma rcok_weaken (E E' : Prop) ids ids' rc h :
+  (E' -> E) -> incl ids ids' -> RcOK E ids rc h -> RcOK E' ids' rc h.
+Proof.
+  intros X Y (A & B & C). split; [exact A|]. split.
+  - intros e. apply B. apply X. exact e.
+  - intros r Hr. apply Y. apply C. exact Hr.
+Qed.
+
+Lemma rcok_retain (E : Prop) ids rc h m :
+  (E -> forall r, In r (rfired rc) -> mocc m r = 0%Z) -> (forall r, (0 < mocc m r)%Z -> In r ids) ->
+  RcOK E ids rc h -> RcOK E ids (rc_retain rc m 1) (fun r => h r + mocc m r)%Z.
+Proof.
+  intros X Y (A & B & C). split; [|split].
+  - intros r. rewrite rcnt_retain, A. lia.
+  - intros e r Hr. rewrite rfired_retain in Hr. rewrite (B e r Hr), (X e r Hr). reflexivity.
+  - intros r [Hr|Hr].
+    + rewrite rfired_retain in Hr. apply C; left; exact Hr.
+    + destruct (Z_lt_le_dec 0 (h r)); [apply C; right; assumption | apply Y; lia].
+Qed.
+
+Lemma rcok_via_id E ids rc h m :
+  (forall r, mocc m r <= h r)%Z -> RcOK E ids rc h -> RcOK E ids (rc_via_emit rc m (fun x => x)) h.
+Proof.
+  intros Hle (A & B & C).
+  assert (F : forall r, In r (rfired (rc_via_emit rc m (fun x => x))) -> In r (rfired rc)).
+  { intros r H. unfold rc_via_emit in H. apply rfired_release_new in H. destruct H as [H|[H1 H2]].
+    - rewrite rfired_retain in H. exact H.
+    - rewrite rcnt_retain, A in H1. pose proof (Hle r). lia. }
+  split; [|split].
+  - intros r. unfold rc_via_emit. rewrite rcnt_release, rcnt_retain, A. lia.
+  - intros e r Hr. apply B; auto.
+  - intros r [Hr|Hr]; apply C; auto.
+Qed.
+
+Lemma rcok_release E ids rc h m :
+  (forall r, mocc m r <= h r)%Z -> RcOK E ids rc h ->
+  RcOK E ids (rc_release rc m 1) (fun r => h r - mocc m r)%Z.
+Proof.
+  intros Hle (A & B & C). split; [|split].
+  - intros r. rewrite rcnt_release, A. lia.
+  - intros e r Hr. pose proof (Hle r). pose proof (mocc_nonneg m r).
+    apply rfired_release_new in Hr. destruct Hr as [Hr|[H1 H2]].
+    + pose proof (B e r Hr). lia.
+    + rewrite A in H1. lia.
+  - intros r Hr. pose proof (Hle r). pose proof (mocc_nonneg m r). destruct Hr as [Hr|Hr].
+    + apply rfired_release_new in Hr. destruct Hr as [Hr|[H1 H2]]; apply C; [left; exact Hr | right; lia].
+    + apply C. right. lia.
+Qed.
+
+(* a new element arrives: its ids are fresh, so no callback already fired concerns it *)
+Lemma rcok_new (E E' : Prop) ids rc h m :
+  (E' -> E) -> (E' -> NoDup (ids ++ map mid (filter mref m))) -> RcOK E ids rc h ->
+  RcOK E' (ids ++ map mid (filter mref m)) rc h /\
+  (E' -> forall r, In r (rfired rc) -> mocc m r = 0%Z) /\
+  (forall r, (0 < mocc m r)%Z -> In r (ids ++ map mid (filter mref m))).
+Proof.
+  intros X Y R. split; [|split].
+  - eapply rcok_weaken; [exact X | apply incl_appl, incl_refl | exact R].
+  - intros e r Hr. destruct R as (A & B & C).
+    assert (Hi : In r ids) by (apply C; left; exact Hr).
+    pose proof (nodup_app_disj _ _ r (Y e) Hi) as Hn.
+    pose proof (mocc_nonneg m r). destruct (Z.eq_dec (mocc m r) 0) as [Z0|Z0]; [exact Z0|].
+    exfalso. apply Hn. apply mocc_pos_in. lia.
+  - intros r Hr. apply in_or_app. right. apply mocc_pos_in. exact Hr.
+Qed.
+
+Lemma ids_of_emit acts src x m : ids_of (acts ++ [AEmit src x m]) = ids_of acts ++ map mid (filter mref m).
+Proof. rewrite ids_of_app. cbn. rewrite app_nil_r. reflexivity. Qed.
+
 (* ---- the invariant ------------------------------------------------------------------------------ *)
 Record ZInv (acts : list act) (s : zst) (outs : list (list (Z * val * md) * list nat)) : Prop := {
   zi_pairs : exists Da Db,
@@ -46,7 +156,7 @@ Record ZInv (acts : list act) (s : zst) (outs : list (list (Z * val * md) * list
       length Da = length (all_deliv outs) /\ length Db = length (all_deliv outs) /\
       deliv_items (all_deliv outs) = map mk_item (combine Da Db);
   zi_empty : z_a s = [] \/ z_b s = [];
-  zi_bal : forall r, rcnt (z_rc s) r = mocc (z_held s) r;
+  zi_rc : RcOK (NoDup (ids_of acts)) (ids_of acts) (z_rc s) (fun r => mocc (z_held s) r);
 }.
 
 Lemma ZInv_init mx sync : ZInv [] (z_init mx sync) [].
@@ -54,7 +164,7 @@ Proof.
   constructor; cbn.
   - exists [], []. cbn. repeat split; reflexivity.
   - left; reflexivity.
-  - reflexivity.
+  - split; [reflexivity|]. split; [intros _ r []|]. intros r [[]|H]. cbn in H. lia.
 Qed.
 
 (* an emit that only stores its element *)
@@ -74,7 +184,19 @@ Proof.
   - exists Da, Db. rewrite ins_src_app, ins_nz_app, all_deliv_app. cbn. rewrite !app_nil_r.
     destruct (Nat.eqb_spec src 0) as [E|E]; cbn; rewrite ?app_nil_r, Ha, Hb, ?app_assoc; auto.
   - destruct (Nat.eqb_spec src 0) as [E|E]; [right|left]; auto.
-  - intros r. rewrite rcnt_release, !rcnt_retain, Hbal. unfold z_held. cbn [z_a z_b].
+  - rewrite ids_of_emit.
+    destruct (rcok_new _ (NoDup (ids_of acts ++ map mid (filter mref m))) _ _ _ m (@nodup_app_l _ _ _) (fun e => e) Hbal)
+      as (R0 & F & G).
+    pose proof (rcok_retain _ _ _ _ m F G R0) as R1.
+    assert (F1 : NoDup (ids_of acts ++ map mid (filter mref m)) ->
+                 forall r, In r (rfired (rc_retain (z_rc s) m 1)) -> mocc m r = 0%Z)
+      by (intros e r Hr; rewrite rfired_retain in Hr; apply F; assumption).
+    pose proof (rcok_retain _ _ _ _ m F1 G R1) as R2.
+    assert (L : forall r, (mocc m r <= (fun r => (fun r => mocc (z_held s) r + mocc m r) r + mocc m r) r)%Z).
+    { intros r. cbn beta. pose proof (mocc_nonneg (z_held s) r). pose proof (mocc_nonneg m r). lia. }
+    pose proof (rcok_release _ _ _ _ m L R2) as R3.
+    eapply rcok_ext; [|exact R3].
+    intros r. cbn beta. unfold z_held. cbn [z_a z_b].
     destruct (src =? 0); rewrite ?flat_map_app; cbn [flat_map snd]; rewrite ?mocc_app, ?app_nil_r; cbn [mocc]; lia.
 Qed.
 
@@ -101,14 +223,34 @@ Proof.
     + rewrite <- app_assoc, Ea, <- Eb. repeat split; auto; lia.
     + rewrite <- app_assoc, Eb, <- Ea. repeat split; auto; lia.
   - exact Ht.
-  - intros r. unfold rc_via_emit. rewrite !rcnt_release, !rcnt_retain, Hbal. unfold z_held. cbn [z_a z_b].
-    assert (Ea' : mocc (flat_map snd (if src =? 0 then z_a s ++ [(x, m)] else z_a s)) r = (mocc ma r + mocc (flat_map snd ta) r)%Z)
-      by (rewrite Ea; cbn [flat_map snd]; apply mocc_app).
-    assert (Eb' : mocc (flat_map snd (if src =? 0 then z_b s else z_b s ++ [(x, m)])) r = (mocc mb r + mocc (flat_map snd tb) r)%Z)
-      by (rewrite Eb; cbn [flat_map snd]; apply mocc_app).
-    clear Ea Eb. rewrite !mocc_app.
-    destruct (src =? 0); rewrite ?flat_map_app in *; cbn [flat_map snd] in *; rewrite ?mocc_app, ?app_nil_r in *;
-      cbn [mocc] in *; lia.
+  - rewrite ids_of_emit.
+    assert (K : forall r, (mocc (z_held s) r + mocc m r = mocc (ma ++ mb) r + mocc (flat_map snd ta ++ flat_map snd tb) r)%Z).
+    { intros r. unfold z_held.
+      assert (Ea' : mocc (flat_map snd (if src =? 0 then z_a s ++ [(x, m)] else z_a s)) r = (mocc ma r + mocc (flat_map snd ta) r)%Z)
+        by (rewrite Ea; cbn [flat_map snd]; apply mocc_app).
+      assert (Eb' : mocc (flat_map snd (if src =? 0 then z_b s else z_b s ++ [(x, m)])) r = (mocc mb r + mocc (flat_map snd tb) r)%Z)
+        by (rewrite Eb; cbn [flat_map snd]; apply mocc_app).
+      clear Ea Eb. rewrite !mocc_app.
+      destruct (src =? 0); rewrite ?flat_map_app in *; cbn [flat_map snd] in *; rewrite ?mocc_app, ?app_nil_r in *;
+        cbn [mocc] in *; lia. }
+    destruct (rcok_new _ (NoDup (ids_of acts ++ map mid (filter mref m))) _ _ _ m (@nodup_app_l _ _ _) (fun e => e) Hbal)
+      as (R0 & F & G).
+    pose proof (rcok_retain _ _ _ _ m F G R0) as R1.
+    assert (F1 : NoDup (ids_of acts ++ map mid (filter mref m)) ->
+                 forall r, In r (rfired (rc_retain (z_rc s) m 1)) -> mocc m r = 0%Z)
+      by (intros e r Hr; rewrite rfired_retain in Hr; apply F; assumption).
+    pose proof (rcok_retain _ _ _ _ m F1 G R1) as R2.
+    assert (L1 : forall r, (mocc (ma ++ mb) r <= (fun r => (fun r => mocc (z_held s) r + mocc m r) r + mocc m r) r)%Z).
+    { intros r. cbn beta. pose proof (K r). pose proof (mocc_nonneg m r).
+      pose proof (mocc_nonneg (flat_map snd ta ++ flat_map snd tb) r). lia. }
+    pose proof (rcok_via_id _ _ _ _ (ma ++ mb) L1 R2) as R3.
+    pose proof (rcok_release _ _ _ _ (ma ++ mb) L1 R3) as R4.
+    assert (L2 : forall r, (mocc m r <= (fun r => (fun r => (fun r => mocc (z_held s) r + mocc m r) r + mocc m r) r - mocc (ma ++ mb) r) r)%Z).
+    { intros r. cbn beta. pose proof (K r). pose proof (mocc_nonneg m r).
+      pose proof (mocc_nonneg (flat_map snd ta ++ flat_map snd tb) r). lia. }
+    pose proof (rcok_release _ _ _ _ m L2 R4) as R5.
+    eapply rcok_ext; [|exact R5].
+    intros r. cbn beta. unfold z_held at 1. cbn [z_a z_b]. pose proof (K r). lia.
 Qed.
 
 Lemma zinv_frame acts s outs a mx sy now nx w fl d :
@@ -120,8 +262,10 @@ Lemma zinv_frame acts s outs a mx sy now nx w fl d :
 Proof.
   intros [(Da & Db & Ha & Hb & La & Lb & Hd) He Hbal] Hna.
   constructor; cbn [z_a z_b z_rc]; auto.
-  exists Da, Db. rewrite ins_src_app, ins_nz_app, all_deliv_app. cbn [all_deliv flat_map fst]. rewrite !app_nil_r.
-  destruct a; try contradiction; cbn; rewrite !app_nil_r; auto.
+  - exists Da, Db. rewrite ins_src_app, ins_nz_app, all_deliv_app. cbn [all_deliv flat_map fst]. rewrite !app_nil_r.
+    destruct a; try contradiction; cbn; rewrite !app_nil_r; auto.
+  - replace (ids_of (acts ++ [a])) with (ids_of acts); [exact Hbal|].
+    rewrite ids_of_app. destruct a; try contradiction; cbn; rewrite app_nil_r; reflexivity.
 Qed.
 
 Lemma zst_eta s : s = {| z_max := z_max s; z_sync := z_sync s; z_now := z_now s; z_rc := z_rc s; z_next := z_next s;
@@ -246,11 +390,18 @@ Qed.
 
 Theorem zip_balance mx sync acts s outs :
   run_steps zip_model (z_init mx sync) acts = (s, outs) -> forall r, rcnt (z_rc s) r = mocc (z_held s) r.
-Proof. intros H. exact (zi_bal _ _ _ (zip_reach _ _ _ _ _ H)). Qed.
+Proof. intros H. exact (proj1 (zi_rc _ _ _ (zip_reach _ _ _ _ _ H))). Qed.
 
 Theorem zip_count_nonneg mx sync acts s outs :
   run_steps zip_model (z_init mx sync) acts = (s, outs) -> forall r, (0 <= rcnt (z_rc s) r)%Z.
 Proof. intros H r. rewrite (zip_balance _ _ _ _ _ H). apply mocc_nonneg. Qed.
+
+(* the TRUE part of the generic callback property: no callback is ever scheduled for an element that is still
+   BUFFERED in the node (what fails, see zip_cb_early_refuted, is only the wait for the consumer of a delivered tuple) *)
+Theorem zip_cb_not_early_buffered mx sync acts s outs :
+  run_steps zip_model (z_init mx sync) acts = (s, outs) ->
+  NoDup (ids_of acts) -> forall r, In r (rfired (z_rc s)) -> mocc (z_held s) r = 0%Z.
+Proof. intros H. exact (proj1 (proj2 (zi_rc _ _ _ (zip_reach _ _ _ _ _ H)))). Qed.
 
 Definition mdr (i : nat) : mdi := {| mid := i; mref := true |}.
 
@@ -318,5 +469,6 @@ Print Assumptions zip_pairs_md.
 Print Assumptions zip_balance.
 Print Assumptions zip_count_nonneg.
 Print Assumptions zip_cb_early_refuted.
+Print Assumptions zip_cb_not_early_buffered.
 Print Assumptions zip_waiters_released.
 Print Assumptions zip_nonvacuous.
